@@ -194,6 +194,9 @@ def _admissible_table(db, rep):
     defined iff every left side is a constituent of operand 1 AND every right side a constituent of operand 2 (and the pairs are equatable)"""
     import itertools
     from engine.evalmini import Interp, Obj, OutOfFragment, NOT_HANDLED
+    r13 = rep.rule('r13', 'COPIES-ANALYSED (shared with C07 r2): an insertion that loads the copies with the deferred loader reaches UpdateState on every path to its return - whether or not a name had to change - so the merged schema holds the parse results and resolved texts of what it now contains', 3)
+    from rules import C07
+    C07.deferred_rule(db, r13)
     r7 = rep.rule('r7', 'TRANSLATE-ONCE (shared with C08 r8): merged copies have every mention rewritten exactly once by the complete alias map', 4)
     from rules.shared_translate_once import translate_once_rule
     translate_once_rule(db, r7)
